@@ -17,7 +17,7 @@ import verifkit as vk
 
 CAT_FILE = os.path.join(vk.SPECS, "ChainHistoryCatalogue.tla")
 HCLASSES = ("m10", "m50", "m300", "m303", "other")
-STAGES = ("idle", "fresh", "signed", "elected", "relayed")
+STAGES = ("idle", "fresh", "signed", "elected", "relayed")      # of the hostile product; further stages: reportedpad, split, newval
 
 
 def spec_catalogue():
@@ -84,6 +84,15 @@ class C09(Pipeline):
 
     def execute(self, tier):
         self._tier = tier
+        self._vacuity = []
+        violations, known, cov = self._execute(tier)
+        if not violations and self._vacuity:      # violations first; vacuity only makes a clean trace inconclusive
+            raise vk.Broken("; ".join(self._vacuity))
+        if self._vacuity:
+            cov["vacuity_notes"] = self._vacuity
+        return violations, known, cov
+
+    def _execute(self, tier):
         rows, c = driver_catalogue()
         spec = spec_catalogue()
         if rows != spec:
@@ -95,7 +104,12 @@ class C09(Pipeline):
         return super().execute(tier)
 
     def extra_histories(self, tier):
-        gate = [[{"act": "Prepare", "args": {"stage": s, "hclass": "other"}}, {"act": "Gate", "args": {"n": 0}}, {"act": "Run", "args": {"n": 0}}] for s in STAGES]
+        gate = [[{"act": "Prepare", "args": {"stage": s, "hclass": "other", "world": "std"}}, {"act": "Gate", "args": {"n": 0}},
+                 {"act": "Run", "args": {"mode": "duty", "span": "next"}}] for s in STAGES]
+        special = [[{"act": "Prepare", "args": {"stage": s, "hclass": "other", "world": "std"}}, {"act": "Run", "args": {"mode": "noattest", "span": "prune"}}]
+                   for s in ("relayed", "reportedpad", "split", "newval")]
+        special += [[{"act": "Prepare", "args": {"stage": "idle", "hclass": "other", "world": w}}, {"act": "Run", "args": {"mode": "duty", "span": "120"}}] for w in ("big", "solo")]
+        gate += special
         return copy.deepcopy(GOV) + (gate if tier == "thorough" else [])
 
     def drive(self, histories):
@@ -150,6 +164,8 @@ class C09(Pipeline):
         run = [e for e in evs if e["act"] == "Run"]
         if evs and evs[0]["act"] == "GovAction":
             return True
+        if not hostile and run and run[0]["args"].get("span") in ("prune", "120"):
+            return run[0]["blocks"] >= 100
         return bool(run) and (not hostile or hostile[0]["res"] in ("accepted", "abort")) and run[0]["blocks"] >= 1
 
     def post_drive(self, events, tier):
@@ -160,18 +176,31 @@ class C09(Pipeline):
         acc = [e for e in hs if e["res"] == "accepted"]
         rej = [e for e in hs if e["res"] == "rejected"]
         if not acc or not rej:
-            raise vk.Broken("vacuous drive: %d accepted, %d rejected hostile transactions" % (len(acc), len(rej)))
+            self._vacuity.append("vacuous drive: %d accepted, %d rejected hostile transactions" % (len(acc), len(rej)))
         gates = [e for e in events if e["act"] == "Gate" and e["res"] == "armed"]
         byh = {}
         for e in events:
             byh.setdefault(e["h"], []).append(e)
         halted = sum(1 for evs in byh.values() if any(e["act"] == "Gate" for e in evs) and any(e["act"] == "Run" and e["res"] == "abort" and "needs to be running at least" in e["log"] for e in evs))
         if not gates or halted != len(gates):
-            raise vk.Broken("the deliberately closed version gate stopped %d of %d chains: abort detection is not live" % (halted, len(gates)))
+            self._vacuity.append("the deliberately closed version gate stopped %d of %d chains: abort detection is not live" % (halted, len(gates)))
+        lapse = [e for e in events if e["act"] == "Run" and e["args"].get("span") == "prune"]
+        stage_of = {e["h"]: e["args"] for e in events if e["act"] == "Prepare"}
+        for e in lapse:
+            if e["res"] == "ok" and (e["pruned"] < 1 or e["at"] < 610):
+                self._vacuity.append("vacuous drive: the %s history did not reach the pruning of its reported message (pruned %d, height %d)" % (stage_of[e["h"]]["stage"], e["pruned"], e["at"]))
+        if {stage_of[e["h"]]["stage"] for e in lapse} != {"relayed", "reportedpad", "split", "newval"}:
+            self._vacuity.append("vacuous drive: not every unattested-report stage was run to its pruning height")
+        silent = [e for e in events if e["act"] == "Run" and e["args"].get("span") == "120"]
+        for e in silent:
+            if e["res"] == "ok" and (e["lapsed"] < 1 or e["blocks"] < 120):
+                self._vacuity.append("vacuous drive: world %s has no unjailed validator with a dead pigeon after %d blocks" % (stage_of[e["h"]]["world"], e["blocks"]))
+        if {stage_of[e["h"]]["world"] for e in silent} != {"big", "solo"}:
+            self._vacuity.append("vacuous drive: the worlds with an unjailable inactive validator were not run")
         seen = {(e["args"]["kind"], e["args"]["param"], e["args"]["class"]) for e in hs}
         cat = {(k, p, c) for k, ps in self._catalogue["kinds"].items() for p, t in ps for c in self._catalogue["classes"][t]}
         if tier == "quick" and seen != cat:
-            raise vk.Broken("quick tier must execute every catalogue entry once: %d of %d" % (len(seen & cat), len(cat)))
+            self._vacuity.append("quick tier must execute every catalogue entry once: %d of %d" % (len(seen & cat), len(cat)))
         runs = [e for e in events if e["act"] == "Run" and e["res"] == "ok"]
         prep = {(e["args"]["stage"], e["args"]["hclass"]) for e in events if e["act"] == "Prepare"}
         kinds = sorted({k for k, _, _ in seen})
@@ -186,6 +215,8 @@ class C09(Pipeline):
             "accepted_by_kind": _count(e["args"]["kind"] for e in acc),
             "blocks_finalised_after_hostile": sum(e["blocks"] for e in runs),
             "runs_covering": {k: sum(1 for e in runs if e[k]) for k in ("m10", "m50", "m300", "m303")},
+            "unattested_reports_run_to_pruning": [dict(stage=stage_of[e["h"]]["stage"], res=e["res"], blocks=e["blocks"], reported_messages_pruned=e["pruned"], validators_jailed=e["jailed"]) for e in lapse],
+            "worlds_with_unjailable_inactive_validator": [dict(world=stage_of[e["h"]]["world"], res=e["res"], blocks=e["blocks"], unjailed_with_dead_pigeon=e["lapsed"], validators_jailed=e["jailed"]) for e in silent],
             "version_gate_closed": len(gates), "version_gate_halted": halted,
             "governance_actions": [dict(e["args"], res=e["res"], ms=e["ms"], queued_messages=e["nqueue"], left_in_store_after_readding_chain=e["nafter"], stack=e["stack"][:300])
                                    for e in events if e["act"] == "GovAction"],
